@@ -221,6 +221,8 @@ def units():
     return [Unit("TDGLSolver.__init__", "tdgl.solver.solver:TDGLSolver.__init__ / validate_terminal_currents", lambda m=None: ic.run_init(m, prefixes=("C19.",)), props=["C19"], timeout=900),
             Unit("SolverOptions.validate", O_ + ":SolverOptions.validate", run_validate, props=["C19"], timeout=300),
             Unit("TDGLSolver.solve[paths]", "tdgl.solver.solver:TDGLSolver.solve", run_solve_paths, props=["C19"], timeout=300),
+            Unit("update_mu_boundary[no rejection while stepping]", "tdgl.solver.solver:TDGLSolver.update_mu_boundary",
+                 lambda m=None: __import__("checks.c01", fromlist=["x"]).run_density(m, prefixes=("C19.",)), props=["C19"], timeout=600),
             Unit("Device.__eq__", "tdgl.device.device:Device.__eq__", run_device_eq, props=["C19"], timeout=300),
             Unit("Device.__init__[rejections]", "tdgl.device.device:Device.__init__", run_device_init, props=["C19"], timeout=300),
             Unit("Solution.__init__[device snapshot]", SOL_ + ":Solution.__init__", run_solution_snapshot, props=["C19"], timeout=300),
